@@ -57,5 +57,53 @@ func (x *Exec) specialCall(fr *Frame, st *State, ci ssa.CallInstruction, key str
 }
 
 func (x *Exec) checkFieldGuards(fr *Frame, st *State, structType types.Type, field int, base, v string) {
-	// field-write guards are not implemented yet
+	if len(x.db.FieldWrites) == 0 || x.mode == "lemma" {
+		return
+	}
+	stt, ok := structType.Underlying().(*types.Struct)
+	if !ok {
+		return
+	}
+	tk := typeKey(structType)
+	fname := stt.Field(field).Name()
+	for _, fw := range x.db.FieldWrites {
+		if fw.Type != tk || fw.Field != fname || !x.wantObl(fw.Props) {
+			continue
+		}
+		site := fr.fn
+		pkgPath := ""
+		if f := outermost(site); f.Pkg != nil {
+			pkgPath = f.Pkg.Pkg.Path()
+		}
+		if len(fw.In) > 0 {
+			ok := false
+			for _, in := range fw.In {
+				in = expandModRel(in)
+				if pkgPath == in || (strings.HasSuffix(in, "/...") && strings.HasPrefix(pkgPath+"/", in[:len(in)-3])) {
+					ok = true
+				}
+			}
+			if !ok {
+				continue
+			}
+		}
+		if fw.InFunc != nil && !fw.InFunc.MatchString(shortFn(site)) {
+			continue
+		}
+		env := &SpecEnv{x: x, names: map[string]specVal{}, st: st, old: fr.entryOrSelf(st)}
+		env.pkg = x.pkgOfContract(fw.Pkg, site)
+		env.callerFrame = fr
+		env.names["v"] = specVal{term: v, typ: stt.Field(field).Type()}
+		env.names["base"] = specVal{term: base, typ: types.NewPointer(structType)}
+		x.fwCount[fw.Name+"@"+shortFn(site)]++
+		n := x.fwCount[fw.Name+"@"+shortFn(site)]
+		for _, r := range fw.Requires {
+			goal := x.evalBool(env, r.Expr)
+			name := fmt.Sprintf("%s/requires:%s@store:%s#%d", shortFn(site), r.Label, fw.Name, n)
+			if site != x.top && x.top != nil && x.top.Blocks != nil {
+				name += "/via:" + shortFn(x.top)
+			}
+			x.addObl(st, "callsite", name, goal, x.p.pos(site.Pos()), r.Text)
+		}
+	}
 }
